@@ -488,6 +488,97 @@ VALIDATE_MESSAGES = [
 ]
 
 
+# --------------------------------------------------------------------------------------------
+# mismatch stream: arguments whose dimensions disagree about the size of an index
+# --------------------------------------------------------------------------------------------
+
+MISMATCH_PROBLEMS = [
+    ("a(i,j) = b(i,j) + c(j,i)", ["ss", "ds", "sd", "dd", "s1s0"]),
+    ("a(i,j) = b(i,j) * c(j,i)", ["ss", "ds", "dd"]),
+    ("a(i,j) = b(i,k) * c(k,j)", ["ss", "ds", "dd"]),
+    ("a(i,j) = b(i,k) * c(j,k)", ["ss", "ds"]),
+    ("a(i,j) = b(i,j) + c(i,j)", ["ss", "ds", "s1s0"]),
+    ("a(i,j) = b(i,j) * c(i,j) + d(j,i)", ["ss", "ds"]),
+    ("a(i) = b(i,j) * c(j,i)", ["s", "d"]),
+    ("a(i,j,k) = b(i,j,k) + c(k,j,i)", ["sss", "dss", "ddd"]),
+    ("a(i,j,k) = b(i,j,k) * c(j,k,i)", ["sss", "dss"]),
+    ("a(i) = b(i) + c(i)", ["s", "d"]),
+]
+MISMATCH_SHAPES = {1: [(2,), (3,)], 2: [(2, 3), (3, 2), (1, 4), (4, 1), (2, 2)], 3: [(2, 3, 4), (3, 1, 2), (1, 2, 3)]}
+
+
+def gen_mismatch_cases(seed: int, tier: str):
+    """Calls whose arguments need not agree on index sizes: (a) every argument has the SAME shape but
+    the assignment uses the shared indexes in different positions, (b) independent shapes per argument.
+    The library must refuse (ValueError) or return a well-formed tensor."""
+    rng = random.Random(f"C02-mismatch:{seed}")
+    reps = 2 if tier == "quick" else 8
+    cases = []
+    for a, outs in MISMATCH_PROBLEMS:
+        orders = sweep.orders_of(a)
+        names = list(orders)
+        pa = sweep.parsed(a)
+        for of in outs:
+            for fill in ("d", "s", "ds"):
+                # input levels follow the alphabetical order of the tensor's indexes (c(j,i) -> s1s0), so
+                # that a kernel exists for compressed inputs used transposed
+                f = {}
+                for n, occs in pa.expression.variables().items():
+                    idx = occs[0].indexes
+                    order_ = sorted(range(len(idx)), key=lambda d: idx[d])
+                    chars = (fill * len(idx))[: len(idx)] if fill != "ds" else ("d" + "s" * len(idx))[: len(idx)]
+                    f[n] = "".join(f"{c}{d}" for c, d in zip(chars, order_))
+                f[names[0]] = of
+                for rep in range(reps):
+                    ins = {}
+                    same = rep % 2 == 0
+                    shared = {o: rng.choice(MISMATCH_SHAPES[o]) for o in set(orders.values()) if o}
+                    for n in names[1:]:
+                        dims = list(shared[orders[n]] if same else rng.choice(MISMATCH_SHAPES[orders[n]]))
+                        ins[n] = {"dims": dims, "entries": sweep.random_entries(rng, dims, rng.choice(["full", "random", "full"]))}
+                    cases.append({"assignment": a, "formats": f, "inputs": ins, "same_shape": same})
+    return cases
+
+
+def run_mismatch_case(c) -> dict:
+    from tensora import tensor_method
+
+    a, f, ins = c["assignment"], c["formats"], c["inputs"]
+    rec = {"assignment": a, "formats": f, "inputs": entries_to_json(ins), "same_shape": c.get("same_shape"),
+           "capacity": os.environ.get("TENSORA_VERIF_INITIAL_CAPACITY", "")}
+    pa = sweep.parsed(a)
+    consistent = True
+    for index, participants in pa.expression.index_participants().items():
+        if len({ins[v]["dims"][d] for v, d in participants}) > 1:
+            consistent = False
+    rec["consistent"] = consistent
+    try:
+        fn = tensor_method(a, f)
+        args = {n: sweep.build(f[n], v["dims"], v["entries"]) for n, v in ins.items()}
+    except Exception as e:
+        n = err_name(e)
+        rec["status"] = "skip" if is_skipped(n) else "error"
+        rec["error"] = n + ": " + str(e)[:200]
+        return rec
+    try:
+        res = fn(**args)
+    except ValueError as e:
+        rec["status"] = "refused"
+        rec["error"] = str(e)[:200]
+        return rec
+    except Exception as e:
+        n = err_name(e)
+        rec["status"] = "skip" if is_skipped(n) else "error"
+        rec["error"] = n + ": " + str(e)[:200]
+        return rec
+    rec["status"] = "ok"
+    raw, problems = deep_raw(res)
+    rec["raw"] = raw
+    rec["alloc_problems"] = problems
+    return rec
+
+
+
 def run_validate(s) -> str:
     import re
 
@@ -572,6 +663,17 @@ def main():
     elif mode == "operator_cases":
         for i, c in enumerate(req["cases"]):
             rec = run_operator_case(c)
+            rec["id"] = i
+            out.write(json.dumps(rec) + "\n")
+            out.flush()
+    elif mode in ("mismatch", "mismatch_cases"):
+        cases = gen_mismatch_cases(req["seed"], req["tier"]) if mode == "mismatch" else [dict(c, inputs=entries_from_json(c["inputs"])) for c in req["cases"]]
+        for i, c in enumerate(cases):
+            if i <= req.get("resume_index", -1):
+                continue
+            out.write(json.dumps({"begin": i, "assignment": c["assignment"], "formats": c["formats"], "inputs": entries_to_json(c["inputs"])}) + "\n")
+            out.flush()
+            rec = run_mismatch_case(c)
             rec["id"] = i
             out.write(json.dumps(rec) + "\n")
             out.flush()
